@@ -86,6 +86,8 @@ def check_edges(ctx, model, case, method, n, edges, reported_n, D_impl, M_impl, 
         ctx.problem('oracle', 'n_lags reports %r but there are %d lag edges' % (reported_n, len(edges)), case, {'edges': edges}, sig)
     elif max(edges) > M_eff + tol:
         ctx.problem('oracle', 'a lag edge (%r) exceeds the effective maximum lag %r' % (max(edges), M_eff), case, {'edges': edges, 'M_eff': M_eff}, sig)
+    elif method == 'even' and len(edges) == n and path == 'dense' and edges[-1] != M_eff:
+        ctx.problem('oracle', "the last 'even' edge (%r) is not exactly the effective maximum lag %r" % (edges[-1], M_eff), case, {'edges': edges, 'M_eff': M_eff}, dict(sig, exact='last-edge'))
     elif method == 'even' and len(edges) == n:
         w = M_eff / n
         want = [w * (i + 1) for i in range(n)]
